@@ -2,6 +2,7 @@
 import re
 
 from .. import builtins as B
+from ..analysis import strip_through
 from ..analysis import Branches, Origins, blocks_separate, edge_dominates, fmt_terms, reach_avoiding, closure_capture_origins
 from ..interp import CTX, DATA, INTERP, NODE, Interp
 
@@ -65,14 +66,28 @@ def check_registry(ctx, lib):
     b = ctx.fn("runtime::Runtime::get_function", rule=rule)
     if b is not None:
         o = Origins(b, lib)
-        calls = [t for _, t in b.calls()]
-        ok = len(calls) == 2 and re.match(HM + "get$", calls[0]["callee"]) is not None and calls[1]["callee"] == "std::option::Option::<T>::map"
+        # spelling-independent (map(AsRef::as_ref), match, if let): one lookup by the exact name; the answer is Some(a view of
+        # what the map holds under that key) or the map's own None
+        gets = [t for _, t in b.calls() if re.match(HM + "get$", t["callee"])]
+        others = [t["callee"] for _, t in b.calls() if not re.match(HM + "get$", t["callee"]) and
+                  not re.match(r"^(std::convert::AsRef::as_ref|std::ops::Deref::deref|std::borrow::Borrow::borrow)$", t["callee"])]
+        ok = len(gets) == 1 and not others
         if ok:
-            a = [o.of_operand(x) for x in calls[0]["args"]]
+            a = [o.of_operand(x) for x in gets[0]["args"]]
             ok = a[0] == {("field", ("param", 1), "functions")} and a[1] == {("param", 2)}
-            f = o.of_operand(calls[1]["args"][1])
-            ok = ok and f == {("fnitem", "std::convert::AsRef::as_ref")} and o.of_operand(calls[1]["args"][0]) == {("call", calls[0]["callee"], (fs(a[0]), fs(a[1])), 0)} or \
-                (ok and f == {("fnitem", "std::convert::AsRef::as_ref")})
+
+            def from_get(t):
+                t = strip_through(t)
+                while t[0] == "call" and t[1] in ("std::convert::AsRef::as_ref", "std::ops::Deref::deref", "std::borrow::Borrow::borrow") and len(t[2]) == 1 and len(t[2][0]) == 1:
+                    t = next(iter(t[2][0]))
+                return t[0] == "call" and re.match(HM + "get$", t[1]) is not None
+
+            for t in o.of_local(0):
+                if from_get(t) or (t[0] == "agg" and t[1] == "std::option::Option::None"):
+                    continue
+                if t[0] == "agg" and t[1] == "std::option::Option::Some" and t[2][0] and all(from_get(x) for x in t[2][0]):
+                    continue
+                ok = False
         ctx.check(ok, rule, "lookup", "get_function(name) = functions.get(name).map(AsRef::as_ref) — exact key, no normalisation", b.span)
     b = ctx.fn("<runtime::Runtime as std::default::Default>::default", rule=rule)
     if b is not None:
